@@ -139,14 +139,14 @@ fn add_directional_downcast<const ABOVE: bool>(
         casm_build_extend! {casm_builder,
             hint TestLessThanOrEqual { lhs: rc_bound_imm, rhs: diff } into { dst: is_valid };
         };
-        (validate_ge, validate_lt)
+        (validate_ge, validate_lt_fixed_ap)
     } else {
         // Valid values are where `value >= bound` therefore setting `is_valid` as
         // `(diff % PRIME) < 2**128`.
         casm_build_extend! {casm_builder,
             hint TestLessThan { lhs: diff, rhs: rc_bound_imm } into { dst: is_valid };
         };
-        (validate_lt, validate_ge)
+        (validate_lt_fixed_ap, validate_ge)
     };
     casm_build_extend!(casm_builder, jump Success if is_valid != 0;);
     validate_out_of_range(casm_builder, range_check, value, bound);
@@ -212,6 +212,21 @@ pub fn validate_lt(casm_builder: &mut CasmBuilder, range_check: Var, value: Var,
         maybe_tempvar shifted_value = value + pos_shift;
         assert shifted_value = *(range_check++);
     };
+}
+
+/// Same as [validate_lt], but always advances `ap` by one: for a `bound` of `2**128` no shifted value
+/// is computed, while the costs and ap changes of the one-sided downcasts do not depend on `bound`.
+fn validate_lt_fixed_ap(
+    casm_builder: &mut CasmBuilder,
+    range_check: Var,
+    value: Var,
+    bound: &BigInt,
+) {
+    let prev = casm_builder.curr_ap_change();
+    validate_lt(casm_builder, range_check, value, bound);
+    if prev == casm_builder.curr_ap_change() {
+        casm_build_extend!(casm_builder, ap += 1;);
+    }
 }
 
 /// Validates that `value` is greater or equal to `bound`.
